@@ -3,12 +3,12 @@
 on the lexed text the library really wrote)."""
 from props import _ser
 
-CLAUSES = ["C10_wf_json", "C10_read_json"]
+CLAUSES = ["C10_wf_json", "C10_read_json", "C10_wf_xml", "C10_read_xml"]
 
 
 def run(tier, seed):
-    return _ser.run_ser("C10", tier, seed, "RT", ["json"], ["plain", "all"],
-                        ["plain", "indent", "sort", "ascii", "all"], CLAUSES)
+    # "plain" exists for both formats; "all" is a json.dump option set, "force" is xml force_types
+    return _ser.run_ser("C10", tier, seed, "RT", ["json", "xml"], ["plain", "alt"], ["plain", "alt"], CLAUSES)
 
 
 def replay(path):
